@@ -312,7 +312,17 @@ func (g *gen) pathExpr(v any, d int) string {
 		return g.pick(".", ".[]?", ".a", ".[0]", ".a?", "..", ".[1:]", "empty", ".[-1]?", ".[]", ".b")
 	}
 	sub := func() string { return g.pathExpr(v, d-1) }
-	switch r.Intn(26) {
+	switch r.Intn(29) {
+	case 26, 27:
+		// src as PATTERN | body (destructuring patterns and ?// alternatives; the source is evaluated as an
+		// expression, the body continues from the current location)
+		src := g.pick(".", "(.|.)", "first(.)", ".a?", ".[0]?", "(.[]?)", "(.a?, .[0]?)", "..", ".[1:]?")
+		pat := g.pick("$x", "[$a]", "[$a,$b]", "{$a}", "{a:$a}", "{\"a\":[$a]}", "[$a] ?// $a", "{$a} ?// [$a]", "[[$a]] ?// [$a] ?// $a", "{a:$a} ?// $a")
+		return "((" + src + " as " + pat + " | " + sub() + ")?)"
+	case 28:
+		src := g.pick(".", "(.|.)", "first(.)")
+		pat := g.pick("[$a]", "{$a}", "[$a,$b]", "{a:$a}", "$x")
+		return "(" + src + " as " + pat + " | " + sub() + ")"
 	case 0, 1, 2:
 		return chain(g.walk(v, 3))
 	case 3:
@@ -851,7 +861,78 @@ func regressionCases() []*Case {
 	cs = append(cs, &Case{Kind: "path", Q: []string{"limit(2; .[])"}, Input: "[1,2,3]", Op: "regression"},
 		&Case{Kind: "path", Q: []string{"limit(1; .., .[0])"}, Input: "[[1],2]", Op: "regression"})
 	mod("limit(2; .[])", ". + 1", ". + 1", "[1,2,3]")
+	// destructuring a binding of `.` records no path component (seeded C02-r5a)
+	cs = append(cs, &Case{Kind: "path", Q: []string{"(. as [$x] | .[1])"}, Input: "[1,2]", Op: "regression"},
+		&Case{Kind: "path", Q: []string{"(. as {$a} | .a)"}, Input: `{"a":1}`, Op: "regression"})
+	eq("(. as [$x] | .a) = 1", "1 as $x | _aref((. as [$x] | .a); $x)", "null")
+	mod("(. as {$a} | .b)", "7", "7", `{"a":1}`)
+	// `?` after a suffix is not a constant path: `=` must not take the setpath shortcut (seeded C02-r5b)
+	eq(".a? = 1", "1 as $x | _aref(.a?; $x)", "[1]")
+	eq(".[0]? = 1", "1 as $x | _aref(.[0]?; $x)", `{"a":1}`)
+	eq(".a.b? = 1", "1 as $x | _aref(.a.b?; $x)", `{"a":[1]}`)
 	// an update nested in an update, both deleting (seeded C02-r3b)
 	mod(".[]", "if .[0] == 1 then empty else (.[1] |= empty) end", "if .[0] == 1 then empty else _mref(.[1]; empty) end", "[[1],[2,5],[3]]")
+	return cs
+}
+
+// ---- systematic: destructuring binds and optional access as path-expression clauses ----
+func bindOptCases() []*Case {
+	var cs []*Case
+	ops := func(p, input string) {
+		cs = append(cs, &Case{Kind: "path", Q: []string{p}, Input: input, Op: "path"})
+		c := eqCase("assign", "", p+" = (1)", "(1) as $x | _aref("+p+"; $x)", input)
+		c.P, c.ScalarF = p, true
+		cs = append(cs, c)
+		c = eqCase("modify", "", p+" |= (7)", "_mref("+p+"; (7))", input)
+		c.P, c.ScalarF = p, true
+		cs = append(cs, c)
+		c = eqCase("arith", "", p+" += (1)", "(1) as $x | _mref("+p+"; . + $x)", input)
+		c.P, c.ScalarF = p, false
+		cs = append(cs, c)
+		c = eqCase("del", "", "del("+p+")", "_dref([path("+p+")])", input)
+		c.P, c.ScalarF = p, true
+		cs = append(cs, c)
+	}
+	inputs := []string{"null", "[1,2]", "[1]", `{"a":1}`, `{"a":[1,2],"b":{"a":3}}`, `[[1],{"a":2}]`, "5", "[]", "{}"}
+	// src as PATTERN | body
+	srcs := []string{".", "(.|.)", "first(.)", ".a", ".[0]", ".a?", ".[0]?"}
+	pats := []string{"$x", "[$a]", "[$a,$b]", "{$a}", "{a:$a}", "[$a] ?// $a", "{$a} ?// [$a]"}
+	bodies := []string{".[1]", ".a", ".", ".[0]?", ".a?", ".[]?"}
+	binputs := []string{"null", "[1,2]", `{"a":1}`, `{"a":[1,2],"b":{"a":3}}`, `[[1],{"a":2}]`, "5"}
+	for si, src := range srcs {
+		for _, pat := range pats {
+			for bi, b := range bodies {
+				for ii, in := range binputs {
+					if si >= 3 && (bi+ii)%2 != 0 { // half of the combinations for the navigation sources
+						continue
+					}
+					ops("("+src+" as "+pat+" | "+b+")", in)
+				}
+			}
+		}
+	}
+	// optional access after every suffix kind, on matching and non-matching inputs
+	sufs := []string{".a", "[0]", "[1:]", "[\"b\"]", "[-1]", "[]"}
+	head := func(x string) string {
+		if strings.HasPrefix(x, "[") {
+			return "." + x
+		}
+		return x
+	}
+	for _, in := range inputs {
+		for _, a := range sufs {
+			for _, qa := range []string{"", "?"} {
+				ops(head(a)+qa, in)
+				for _, b := range sufs {
+					for _, qb := range []string{"", "?"} {
+						if qa == "" && qb == "" {
+							continue
+						}
+						ops(head(a)+qa+b+qb, in)
+					}
+				}
+			}
+		}
+	}
 	return cs
 }
